@@ -322,6 +322,7 @@ class QueryScheduler:
         '_next_scheduled_for_alias',
         '_query_heap',
         '_next_run',
+        '_next_run_not_before_millis',
         '_clock_resolution_millis',
         '_question_type',
     )
@@ -349,6 +350,7 @@ class QueryScheduler:
         self._next_scheduled_for_alias: Dict[str, _ScheduledPTRQuery] = {}
         self._query_heap: list[_ScheduledPTRQuery] = []
         self._next_run: Optional[asyncio.TimerHandle] = None
+        self._next_run_not_before_millis: float = 0.0
         self._clock_resolution_millis = time.get_clock_info('monotonic').resolution * 1000
         self._question_type = question_type
 
@@ -388,6 +390,23 @@ class QueryScheduler:
         """Schedule a query for a pointer."""
         self._next_scheduled_for_alias[scheduled_query.alias] = scheduled_query
         heappush(self._query_heap, scheduled_query)
+        self._wake_up_earlier_if_needed(scheduled_query.when_millis)
+
+    def _wake_up_earlier_if_needed(self, when_millis: float_) -> None:
+        """Re-arm the timer when a query is due before the planned wake up.
+
+        The timer is armed for the query that was first in the heap when
+        _process_ready_types last ran. A record learned afterwards with an earlier
+        refresh time (a shorter TTL) would otherwise not be looked at until then,
+        and would expire without a single refresh query having been sent.
+        """
+        if self._next_run is None or self._loop is None or self._startup_queries_sent < STARTUP_QUERIES:
+            # Stopped, not started, or the startup queries are still being sent
+            return
+        when = millis_to_seconds(max(when_millis, self._next_run_not_before_millis))
+        if when < self._next_run.when():
+            self._next_run.cancel()
+            self._next_run = self._loop.call_at(when, self._process_ready_types)
 
     def cancel_ptr_refresh(self, pointer: DNSPointer) -> None:
         """Cancel a query for a pointer."""
@@ -448,8 +467,9 @@ class QueryScheduler:
         # switch to a strategy of sending queries only when we
         # need to refresh records that are about to expire
         if self._startup_queries_sent >= STARTUP_QUERIES:
+            self._next_run_not_before_millis = now_millis + self._min_time_between_queries_millis
             self._next_run = self._loop.call_at(
-                millis_to_seconds(now_millis + self._min_time_between_queries_millis),
+                millis_to_seconds(self._next_run_not_before_millis),
                 self._process_ready_types,
             )
             return
@@ -501,6 +521,14 @@ class QueryScheduler:
             self.async_send_ready_queries(False, now_millis, ready_types)
 
         next_time_millis = now_millis + self._min_time_between_queries_millis
+        self._next_run_not_before_millis = next_time_millis
+
+        # The rescue queries scheduled above may be due before the query that was
+        # next in the heap when it was examined
+        for query in schedule_rescue:
+            rescue = self._next_scheduled_for_alias.get(query.alias)
+            if rescue is not None and (next_scheduled is None or rescue.when_millis < next_scheduled.when_millis):
+                next_scheduled = rescue
 
         if next_scheduled is not None and next_scheduled.when_millis > next_time_millis:
             next_when_millis = next_scheduled.when_millis
